@@ -346,7 +346,12 @@ Print Assumptions C16_fista_nonneg_minimiser.
    rejected steps), and unless maxit was reached the gradient J^T F of 1/2|F|^2 at the returned point
    satisfies |J^T F|(x) <= gradtol |J^T F|(x0)   (or x0 was already stationary and is returned).
    LA.solve and LA.norm are oracles: any `solve`, any `rnorm >= 0`.
-   _partial in one respect: that J(x)^T F(x) IS the gradient of 1/2|F(x)|^2 (calculus) is not formalised. *)
+   _partial in one respect: that J(x)^T F(x) IS the gradient of 1/2|F(x)|^2 (calculus) is not formalised.
+   Scope (guard): the carrier is totally ordered -- there is no NaN.  In floating point the loop can also be left
+   through `nan > gradtol == False`: FINDING LM.solve|stagnation-returns-nan (when f - ftemp rounds to 0 the step is
+   accepted and nu doubled every iteration until nu overflows and a NaN point is returned; witness in
+   harness/gen_C16.py W_LM_NAN, replayed on every run).  Rounding is not modelled, so there is no _refuted
+   companion in exact arithmetic. *)
 Theorem C16_lm_stationary_partial :
   forall (T : Type) (t0 t1 : T) (tadd tmul tsub : T -> T -> T) (topp : T -> T)
          (tdiv : T -> T -> T) (tleb : T -> T -> bool) (phi : T -> R),
